@@ -90,7 +90,7 @@ func After(d Duration) <-chan Time { return NewTimer(d).C }
 func AfterFunc(d Duration, f func()) *Timer {
 	t := &Timer{}
 	t.tm = simrt.C.AfterFunc(d, 0, func() {
-		if k := simrt.K; k != nil {
+		if k := simrt.Active(); k != nil {
 			k.Go("afterfunc", "", f)
 		} else {
 			f()
